@@ -289,7 +289,26 @@ fn replay_one<C: PositiveLength>(hist: &Value, bi: usize, steps: &mut usize, mis
                 let cs = SymbolCount::<Dna>::count_symbols(&buf);
                 let counts = vec![cs[0] as u64, cs[1] as u64, cs[4] as u64];
                 let got = json!({"len": buf.len(), "wrap": buf.wrap(), "rows": rows, "index": idx, "counts": counts});
-                if &got != want { Some(got) } else { None }
+                // compared the way C04 states it (Striped!ObsOK), not cell by cell with the model's matrix: the sequence
+                // rows, length, Index and counts must be the model's; the number of look-ahead rows may exceed the
+                // model's (only "at least the requested number" is required) as long as every look-ahead row k < R is
+                // sequence row k shifted left by one column with the wildcard (2) in the last column
+                let wrows = want["rows"].as_array().unwrap();
+                let wwrap = want["wrap"].as_u64().unwrap() as usize;
+                let r = wrows.len() - wwrap;
+                let cc = C::USIZE;
+                let mut ok = got["len"] == want["len"] && got["index"] == want["index"] && got["counts"] == want["counts"]
+                    && buf.wrap() >= wwrap && rows.len() == r + buf.wrap();
+                if ok {
+                    for i in 0..r { if json!(rows[i]) != wrows[i] { ok = false; } }
+                    for k in 0..buf.wrap().min(r) {
+                        for c in 0..cc {
+                            let expect = if c + 1 < cc { rows[k][c + 1] } else { 2 };
+                            if rows[r + k][c] != expect { ok = false; }
+                        }
+                    }
+                }
+                if !ok { Some(got) } else { None }
             }
         };
         if let Some(b) = bad {
